@@ -88,5 +88,14 @@ func Registry() []*Spec {
 		Quick: map[string]int{}, Thorough: map[string]int{},
 		Covers: []string{"done"}, UnitDepth: 3,
 		Note: "Sort: three distinct symbolic keys (<= 2 bytes) in every map iteration order give the same text, keys ascending"})
+	// ---- C10: SEN writer / parser round trip
+	add(Spec{Property: "C10", Name: "VerifC10_String", Pkg: "asm",
+		Quick: map[string]int{"N": 2}, Thorough: map[string]int{"N": 4},
+		Covers: []string{"done"}, UnitDepth: 4,
+		Note: "every string of <= N bytes as top-level value, array element, object value and object key: sen.Parser.Parse(sen.Writer.SEN(v)) gives back v (invalid UTF-8 -> U+FFFD), HTMLUnsafe on and off"})
+	add(Spec{Property: "C10", Name: "VerifC10_Tree", Pkg: "asm",
+		Quick: map[string]int{}, Thorough: map[string]int{"SLEN": 2, "KLEN": 2, "OMIT": 1, "BIGINT": 1},
+		Covers: []string{"done"}, UnitDepth: 5,
+		Note: "the C04 tree shapes (symbolic bool / int64 / short string leaves and keys) through sen.Writer under Sort x {tight, Indent 2, Tab} and back through sen.Parser"})
 	return r
 }
